@@ -21,7 +21,7 @@ var Introducers = []string{"Add", "AddRaw", "Set", "SetRaw", "WriteCas", "WriteC
 	"WriteWithXattrs", "UpdateXattrs", "WriteResurrectionWithXattrs", "WriteUpdateWithXattrs", "SetWithMeta", "WriteSubDoc-then-Touch", "Add-over-tombstone", "Set-over-tombstone"}
 
 // Order classes: how the deadline under test relates to the other deadlines / writes of the bucket.
-var Orders = []string{"only", "later-first", "later-after", "shorten", "lengthen", "preserve", "clear", "delete-clears", "past", "sibling-collection", "touch-shorten", "touch-lengthen", "recreated-collection", "after-empty-sweep"}
+var Orders = []string{"only", "later-first", "later-after", "shorten", "lengthen", "preserve", "clear", "delete-clears", "past", "sibling-collection", "touch-shorten", "touch-lengthen", "recreated-collection", "after-empty-sweep", "sibling-handle-closed"}
 
 type Spec struct {
 	Disk       bool
@@ -335,6 +335,25 @@ func RunOne(tmp string, s Spec) (res Result) {
 		}
 		t0, t1, err = introduce(c, s.Intro, key, lead, s.Relative)
 		setWant(lead)
+	case "sibling-handle-closed":
+		// a second handle of the bucket is opened and closed again (before or after the deadline is introduced): the
+		// bucket lives on through the first handle, and so must its expiry timer
+		closeSibling := func() {
+			if sib, serr := rosmar.OpenBucket(url, name, rosmar.CreateOrOpen); serr == nil {
+				if s.Lead%2 == 0 {
+					_ = sib.DefaultDataStore().SetRaw("through-sibling", 0, nil, []byte("s"))
+				}
+				sib.Close(ctx)
+			}
+		}
+		if s.Coll == 0 {
+			closeSibling()
+		}
+		t0, t1, err = introduce(c, s.Intro, key, lead, s.Relative)
+		setWant(lead)
+		if s.Coll == 1 {
+			closeSibling()
+		}
 	case "sibling-collection":
 		_ = other.Set(key, 0, nil, []byte(`{"sibling":"never expires"}`)) // same key, other collection, no expiry
 		_ = other.Set("sib2", abs(time.Now().Unix(), far, s.Relative), nil, []byte(`{"sibling":"later"}`))
